@@ -457,6 +457,18 @@ def run_r3_r4(repo: Repo, res: Result) -> None:
 # --------------------------------------------------------------------------- R5
 
 
+def _plain(srcs) -> set:
+    """Provenance tags that name parameters of the query (without the bookkeeping tags of this rule)."""
+    return {x for x in srcs if x not in ("search", "batched") and not str(x).startswith(("fld:", "pos:"))}
+
+
+def _found_pair(el: Sc) -> Tup:
+    """(importer, importee) as a search reports it; the position tags tell whether a query hands the pairs on as they are."""
+    from dataclasses import replace as _replace
+
+    return Tup((V(_replace(el, srcs=el.srcs | {"pos:importer"})), V(_replace(el, srcs=el.srcs | {"pos:importee"}))), "search result")
+
+
 def _deep_scalars(it: Interp, v, depth: int = 0) -> list:
     """Scalars inside a value, also keys and values of dictionaries."""
     out: list = []
@@ -582,7 +594,7 @@ def run_r5(repo: Repo, res: Result) -> None:
                     srcs = frozenset().union(*[sc.srcs for sc in key_scalars]) if key_scalars else frozenset()
                     if not key_scalars:
                         # no module of its own: a helper that answers for a whole collection (sub trees of all objects, ...)
-                        srcs = frozenset(x for a in allv for sc in _deep_scalars(it, a) for x in sc.srcs if not str(x).startswith("fld:"))
+                        srcs = frozenset(x for a in allv for sc in _deep_scalars(it, a) for x in _plain(sc.srcs))
                     pnames = [p for p in fn.param_names if not (fn.node.args.vararg and p == fn.node.args.vararg.arg)]
                     calls.append({"fn": fn, "args": allv, "names": [*pnames[: len(args)], *([None] * max(0, len(args) - len(pnames))), *kwargs.keys()], "node": node, "fr": fr, "live": frozenset(it.active)})
                     if batched:
@@ -594,15 +606,15 @@ def run_r5(repo: Repo, res: Result) -> None:
                             for sh in a:
                                 if isinstance(sh, Ref) and sh.kind in ("coll", "dict"):
                                     for sc in _deep_scalars(it, V(sh)):
-                                        msrcs |= {x for x in sc.srcs if x != "search" and not str(x).startswith("fld:")}
+                                        msrcs |= _plain(sc.srcs)
                         if msrcs:
                             member = Sc(srcs=frozenset(msrcs))
                             el = Sc(srcs=srcs | frozenset(msrcs) | {"search", "batched"}, eids=eids)
                             d = it.dict_((id(node), fr.inv, "search-dict"), it.site(fr, node))
-                            it.store_entry(d, V(member), V(it.coll((id(node), fr.inv, "search"), it.site(fr, node), V(Tup((V(el), V(el)), "search result")))))
+                            it.store_entry(d, V(member), V(it.coll((id(node), fr.inv, "search"), it.site(fr, node), V(_found_pair(el)))))
                             return V(d)
                     el = Sc(srcs=srcs | {"search"}, eids=eids)
-                    return V(it.coll((id(node), fr.inv, "search"), it.site(fr, node), V(Tup((V(el), V(el)), "search result"))))
+                    return V(it.coll((id(node), fr.inv, "search"), it.site(fr, node), V(_found_pair(el))))
 
                 return intr
 
@@ -647,7 +659,7 @@ def run_r5(repo: Repo, res: Result) -> None:
                         elif isinstance(sh, Ref) and sh.kind == "coll":
                             els = it.elems(V(sh))
                             scs = _deep_scalars(it, els)
-                            plain = lambda sc: {x for x in sc.srcs if x != "search" and not str(x).startswith("fld:")}  # noqa: E731
+                            plain = lambda sc: _plain(sc.srcs)  # noqa: E731
                             if scs and all(isinstance(x, Sc) for x in els) and all(sc.srcs and sc.srcs <= pset and not (sc.eids & c["live"]) for sc in scs):
                                 for sc in scs:
                                     used |= sc.srcs
@@ -674,7 +686,7 @@ def run_r5(repo: Repo, res: Result) -> None:
                         elif isinstance(sh, Ref) and sh.kind == "dict":
                             # an index computed beforehand from the complete module sets (node -> modules it was requested for)
                             scs = _deep_scalars(it, V(sh))
-                            if scs and all(sc.srcs and {x for x in sc.srcs if x != "search" and not str(x).startswith("fld:")} <= pset and not ((sc.eids - sc.gone) & c["live"]) for sc in scs):
+                            if scs and all(sc.srcs and _plain(sc.srcs) <= pset and not ((sc.eids - sc.gone) & c["live"]) for sc in scs):
                                 for sc in scs:
                                     used |= sc.srcs & pset
                                     partial += [f"{mk[2]} [{mk[1]}]" for mk in sc.marks if mk[0] == "part"]
@@ -710,11 +722,19 @@ def run_r5(repo: Repo, res: Result) -> None:
                         if not (isinstance(sh, Ref) and sh.kind == "coll"):
                             bad_vals.append("the value stored for a key is not the list of imports found by a search")
                             continue
+                        for el in it.elems(V(sh)):
+                            if isinstance(el, Tup) and len(el.items) == 2:
+                                first = {x for sc in it.scalars(el.items[0]) for x in sc.srcs if str(x).startswith("pos:")}
+                                second = {x for sc in it.scalars(el.items[1]) for x in sc.srcs if str(x).startswith("pos:")}
+                                if first == {"pos:importee"} and second == {"pos:importer"}:
+                                    bad_vals.append(f"the pairs found by the search are stored as (importee, importer) (pair built at {el.site or '?'}): the callers of the query read them as (importer, importee)")
                         vs = it.scalars(it.elems(V(sh)))
                         if not vs or not all("search" in sc.srcs for sc in vs):
                             bad_vals.append("the value stored for a key is not (only) the result of a graph search")
                             continue
                         veids = frozenset().union(*[sc.eids | (sc.assoc if "batched" in sc.srcs else frozenset()) for sc in vs])
+                        # iterations over the search result itself (copying / filtering / re-shaping its pairs) are part of the same key's work
+                        veids = frozenset(x for x in veids if x in keids or "search" not in it.loop_srcs.get(x, ()))
                         vsrcs = frozenset().union(*[sc.srcs & pset for sc in vs])
                         key_loops = {x for x in keids if x in it.loop_eids}
                         if vsrcs != ksrcs:
@@ -809,7 +829,7 @@ def run_r6(repo: Repo, res: Result) -> None:
             head = f"{entry.relpath}::{cls.name}.{entry.name}"
             try:
                 it.call_method(matcher, entry.name, [V(Sc(srcs=frozenset({"evaluable#1"}))) if _mentions_class(_ann(T, entry, p), proto.fq) else V(Opaque(p.arg)) for p in entry.params[1:]], "call-1")
-                consulted = [nm for nm, srcs in it.scalar_calls if "evaluable#1" in srcs]
+                consulted = [c[0] for c in it.scalar_calls if "evaluable#1" in c[1]]
                 stale = {(k, f) for (k, f) in it.writes if _derives(it, it.cells[k].fields.get(f, E), "evaluable#1")}
                 it.stale = set(stale)
                 it.stale_reads = []
@@ -821,6 +841,13 @@ def run_r6(repo: Repo, res: Result) -> None:
                 res.undecide("C03.R6", f"{head}::second application", f"the abstract evaluation never saw the evaluable being queried ({'; '.join(it.tops[:2]) or 'no call on it'})", where(entry, entry.node))
                 continue
             reads = it.stale_reads
+            # whatever is handed to the second evaluable must not stem from the first one (caches outside the matcher: module level
+            # dictionaries, the requirement objects, class attributes)
+            crossed = [c for c in it.scalar_calls if "evaluable#2" in c[1] and "evaluable#1" in c[2]]
+            if crossed and not reads:
+                n += 1
+                res.add("C03.R6", f"{head}::second application", False, f"applied a second time, the matcher asks the new architecture about modules that were resolved against the first one (`{crossed[0][3].rsplit('::', 1)[-1]}`): imports of modules that exist only in the new architecture are missing from the report", crossed[0][3].split("::", 1)[0], kind="flow")
+                continue
             own = {sh.key for sh in matcher if isinstance(sh, Ref)}
             names = sorted({f for k, f in stale if k in own})
             n += 1
